@@ -38,6 +38,15 @@ def run_task(task):
     """executed in a worker process"""
     prop, name, params, tier, seed, opts = task
     t0 = time.time()
+    import signal
+
+    def _alarm(signum, frame):
+        raise TimeoutError('task exceeded its wall-clock budget of %d s' % opts.get('task_timeout', 900))
+    try:
+        signal.signal(signal.SIGALRM, _alarm)
+        signal.alarm(int(opts.get('task_timeout', 900)))
+    except Exception:
+        pass
     sys.path.insert(0, VERIF)
     import warnings
     warnings.simplefilter('ignore')
@@ -63,7 +72,7 @@ def run_task(task):
             finally:
                 if tracer:
                     tracer.__exit__()
-        except (core.HarnessError, Inconclusive, solve.SolverDisagreement, NotImplementedError, state.UnexpectedFork) as e:
+        except (core.HarnessError, Inconclusive, solve.SolverDisagreement, NotImplementedError, state.UnexpectedFork, TimeoutError) as e:
             res['error'] = '%s: %s' % (type(e).__name__, e)
             res['traceback'] = traceback.format_exc(limit=6)
         except Exception as e:
@@ -107,6 +116,10 @@ def run_task(task):
     except Exception as e:
         res['error'] = 'worker failure %s: %s' % (type(e).__name__, e)
         res['traceback'] = traceback.format_exc(limit=8)
+    try:
+        signal.alarm(0)
+    except Exception:
+        pass
     res['wall_s'] = time.time() - t0
     return res
 
@@ -286,7 +299,8 @@ def main(argv):
         for gi, params in enumerate(grid):
             opts = {'timeout_ms': meta.get('timeout_ms', {}).get(tier, 60000 if tier == 'quick' else 300000),
                     'trace': gi == 0, 'tv': gi < meta.get('tv_per_scenario', {}).get(tier, 1),
-                    'cvc5': 2 if gi == 0 else 0, 'replay_random': meta.get('replay_random', 2)}
+                    'cvc5': 2 if gi == 0 else 0, 'replay_random': meta.get('replay_random', 2),
+                    'task_timeout': meta.get('task_timeout', {}).get(tier, 900 if tier == 'quick' else 3600)}
             tasks.append((prop, s.name, params, tier, seed, opts))
     results = []
     ctxm = mp.get_context('spawn')
